@@ -314,3 +314,30 @@ def diff_is_failure(prop, p):
         return True
     # relational (C02, C04): the implementation accepting what the proved model rejects is a failure
     return a.startswith("ok") and b.startswith("throw")
+
+
+def finding_matches(finding, p):
+    """custom matcher of the finding `group-abbreviation-shadows-exact`: an oracle failure or difference of a group
+    evaluation in a configuration (abbreviations on) where a long key of one member is a proper prefix of a long key
+    of a different member"""
+    if finding.get("match", {}).get("custom") != "group-abbreviation-shadows-exact":
+        return False
+    if not p.line.startswith("pa group") or p.kind not in ("oracle", "diff"):
+        return False
+    if not any(l.startswith("pa cfg begin") and "abbr=1" in l for l in p.case.lines):
+        return False
+    longs = []
+    for l in p.case.lines:
+        if l.startswith("pa arg "):
+            key = annotation(l, "key") or ""
+            parts = [x.lstrip("-") for x in key.split(",")]
+            lg = [x for x in parts if len(x) > 1]
+            longs.append(lg[0] if lg else None)
+    mem = (annotation(p.line, "members") or "").split("/")[0]
+    if len(mem) != len(longs):
+        return False
+    for i, x in enumerate(longs):
+        for j, y in enumerate(longs):
+            if x and y and i != j and y.startswith(x) and mem[i] != mem[j]:
+                return True
+    return False
